@@ -20,6 +20,56 @@ __CPROVER_assigns(__CPROVER_object_whole(this))
 PROP(C01, C16) __CPROVER_ensures(OK)
 PROP(C16) __CPROVER_ensures(((this->_flags & 1) != 0) == (b != 0) && (this->_flags & ~1u) == (__CPROVER_old(this->_flags) & ~1u))
 ;
+#elif defined(JOB_RUNTIME)
+/* Context* Context::createChildRuntime(Context& root, uint8_t recursion) const (C08, C14): the context a function body runs in is a new
+ * context that resolves functions through the table of the root it was asked for -- the root of the *calling* context, which for a
+ * clone is the clone's own table --, carries the recursion level given, has the flags and root of the parse context, and one new
+ * slot per declared symbol.  BOUNDED: the declared symbol table is a ghost array of at most 2 slots. */
+#define DECL_MAX 2
+struct Symbol g_decl_sym[DECL_MAX + 1];
+struct Context__MemorySlot g_decl[DECL_MAX + 1]; unsigned long g_decl_len; int g_push_n, g_slot_ctor_n; const void *g_push_vec;
+#ifndef G2C_HAVE_vslot_citerator
+struct vslot_citerator { struct Context__MemorySlot *p; };
+#endif
+unsigned long _ZNKSt6vectorIN4bloc7Context10MemorySlotESaIS2_EE4sizeEv(const struct vec_MemorySlot *this) { (void)this; return g_decl_len; }
+void _ZNSt6vectorIN4bloc7Context10MemorySlotESaIS2_EE7reserveEm(struct vec_MemorySlot *this, unsigned long n) { (void)this; (void)n; }
+struct vslot_citerator _ZNKSt6vectorIN4bloc7Context10MemorySlotESaIS2_EE5beginEv(const struct vec_MemorySlot *this)
+{ struct vslot_citerator it; (void)this; *(void **)&it = (void *)&g_decl[0]; return it; }
+struct vslot_citerator _ZNKSt6vectorIN4bloc7Context10MemorySlotESaIS2_EE3endEv(const struct vec_MemorySlot *this)
+{ struct vslot_citerator it; (void)this; *(void **)&it = (void *)&g_decl[g_decl_len]; return it; }
+_Bool _ZN9__gnu_cxxneIPKN4bloc7Context10MemorySlotESt6vectorIS3_SaIS3_EEEEbRKNS_17__normal_iteratorIT_T0_EESE_(const struct vslot_citerator *a, const struct vslot_citerator *b)
+{ return *(void *const *)a != *(void *const *)b; }
+const struct Context__MemorySlot *_ZNK9__gnu_cxx17__normal_iteratorIPKN4bloc7Context10MemorySlotESt6vectorIS3_SaIS3_EEEdeEv(const struct vslot_citerator *this)
+{
+  const struct Context__MemorySlot *p = *(struct Context__MemorySlot *const *)this;
+  __CPROVER_assert(p >= &g_decl[0] && p < &g_decl[g_decl_len], "std::vector iterator dereferenced inside [begin, end)");
+  return p;
+}
+struct vslot_citerator *_ZN9__gnu_cxx17__normal_iteratorIPKN4bloc7Context10MemorySlotESt6vectorIS3_SaIS3_EEEppEv(struct vslot_citerator *this)
+{ *(struct Context__MemorySlot **)this = *(struct Context__MemorySlot **)this + 1; return this; }
+void _ZNSt6vectorIN4bloc7Context10MemorySlotESaIS2_EE9push_backEOS2_(struct vec_MemorySlot *this, struct Context__MemorySlot *s)
+{ (void)s; g_push_vec = (const void *)this; g_push_n++; }
+
+/* std::vector<Type> (the tuple declaration of a symbol): identity in word[0]; delete symbol */
+void _ZNSt6vectorIN4bloc4TypeESaIS1_EEC2ERKS3_(struct vec_Type *this, const struct vec_Type *o) { CW(this, 0) = CW(o, 0); }
+void VCALL_Symbol__Symbol(struct Symbol *s) { (void)s; }
+
+struct Context *_ZNK4bloc7Context18createChildRuntimeERS0_h(struct Context *this, struct Context *root, unsigned char recursion)
+__CPROVER_requires(IS_FRESH(this, sizeof(*this)) && IS_FRESH(root, sizeof(*root)))
+#define SYM_INPUT(s) (s)._base_Type._major, (s)._base_Type._minor, (s)._base_Type._level, (s)._id, (s)._safety, (s)._locked
+__CPROVER_requires(INPUT_STATE(g_decl_len, SYM_INPUT(g_decl_sym[0]), SYM_INPUT(g_decl_sym[1])))
+__CPROVER_requires(SET_EQ(g_decl[0].symbol, &g_decl_sym[0]) && SET_EQ(g_decl[1].symbol, &g_decl_sym[1]))
+__CPROVER_requires(*(unsigned char *)&g_decl_sym[0]._safety <= 1 && *(unsigned char *)&g_decl_sym[0]._locked <= 1 && *(unsigned char *)&g_decl_sym[1]._safety <= 1 && *(unsigned char *)&g_decl_sym[1]._locked <= 1)
+__CPROVER_requires(g_decl_len <= DECL_MAX && recursion > 0 && g_push_n == 0 && g_slot_ctor_n == 0 && __exc == 0 && __caught_n == 0 && GLOBALS_PINNED)
+__CPROVER_assigns()
+PROP(C01) __CPROVER_ensures(OK && RET != 0 && RET != this && RET != root)
+/* functions are resolved through the table of the root handed in (C14: never through another context's table) */
+PROP(C08, C14) __CPROVER_ensures(RET->_fctm == root->_fctm && RET->_root == this->_root && RET->_flags == this->_flags)
+PROP(C08) __CPROVER_ensures(RET->_recursion == recursion)
+/* one new slot per declared symbol, pushed onto the new context's own table; the parse context is not touched */
+PROP(C08, C14) __CPROVER_ensures(g_push_n == (int)g_decl_len && (g_decl_len > 0 ==> g_push_vec == (const void *)&RET->_storage_pool))
+PROP(C14) __CPROVER_ensures(this->_fctm == __CPROVER_old(this->_fctm) && this->_root == __CPROVER_old(this->_root) && root->_fctm == __CPROVER_old(root->_fctm))
+;
 #else
 struct Context *_ZNK4bloc7Context16createChildShellERS0_(struct Context *this, struct Context *root)
 __CPROVER_requires(IS_FRESH(this, sizeof(*this)) && IS_FRESH(root, sizeof(*root)))
